@@ -49,6 +49,12 @@ CHECKS = {
             'iter_CUs headers, iter_CU_range_lists_ex, translate_v5_entry; expression-vs-list-vs-neither classification over (attribute, form, version) cells.',
             'Trusted: list encoders and the classification table in vf/checks/c07.py, vf/enc/dwarf.py for the DIEs. Cells DWARF v2/v3 leave ambiguous (constant forms on location attributes) are not asserted.',
             'DESIGN.md 4/C07'),
+    'C11': ('metamorphic: the same debug payload (corpus-extracted and Hypothesis-generated) wrapped by an independent ELF writer into plain / SHF_COMPRESSED / .zdebug / debuglink / supplementary containers; canonical dumps must coincide and every payload section must reach DWARFInfo byte-identical',
+            'Exploration: canonical dumps (units, DIEs with resolved values, line tables, CFI tables, aranges, pubnames) of every container variant equal the plain '
+            'container and, for corpus files, the original; section pickup is byte-exact; has_dwarf_info truth table over name subsets x strict; wrong debuglink CRC '
+            'and declared!=inflated sizes (both directions, both formats) are rejected; supplementary strings resolve with a loader and stay raw without.',
+            'Trusted: container builder in vf/checks/c11.py over vf/enc/elf.py, zlib, the canonical dump in vf/dump.py; corpus payload bytes are read once through the library itself (stated in the evidence assumptions).',
+            'DESIGN.md 4/C11'),
     'C12': ('Hypothesis-generated operation sequences + every-operation x every-cell sweep from an independently transcribed operation table; round-trip and re-encoding; exhaustive name/opcode bijection',
             'Exploration: parse_expr output (opcode, name, operand values with signedness/width, offsets, nested entry_value blocks to depth 4) equals the generated '
             'sequence for all 174 listed operations in 32 configuration cells with boundary operands and non-minimal LEB128; re-encoding reproduces the bytes; the '
